@@ -691,6 +691,7 @@ def check_two_users(case):
     try:
         env = Env(addrs=servers)
         env.clock = clock
+        env.net.restarts_kill_connections = True      # an outage is a server process that died: the connections it had stay dead
         for s in env.servers:
             s.clock = clock
         hc = HashClient(servers, use_pooling=True, max_pool_size=4, socket_module=env.net, retry_attempts=ra, retry_timeout=RT, dead_timeout=DT, ignore_exc=ie,
@@ -742,6 +743,10 @@ def check_two_users(case):
         for u, r in enumerate(out):
             if r[0] == "exc":
                 e = r[1]
+                if phase == "given-up-and-back":
+                    # the server is healthy again and its dead_timeout is over: it comes back with a client of its own, none of the
+                    # connections that died with the outage is used again - no call fails
+                    raise Violation(["two-users", "error-after-revival", type(e).__name__], "the server is healthy and due back, yet user %d's call raised %r: %s" % (u, e, desc))
                 if ie:
                     raise Violation(["two-users", "escaped-with-ignore_exc", type(e).__name__], "user %d's call raised %r: %s" % (u, e, desc))
                 if not isinstance(e, (OSError, MemcacheError)):
